@@ -15,7 +15,7 @@ Definition has_unwrap (e : err) : bool :=
 Definition has_cause (e : err) : bool :=
   match e with
   | Wrap _ (WFmtWrap _) _ | Wrap _ (WPathError _ _) _ | Wrap _ (WLinkError _ _ _) _
-  | Wrap _ (WSyscallError _) _ => false
+  | Wrap _ (WSyscallError _) _ | Wrap _ (WOpError _ _ _ _) _ => false
   | Wrap _ (WUser u _ _) _ => match u with UWCause | UWBoth => true | _ => false end
   | Wrap _ _ _ | Second _ _ _ | OWrap _ _ _ _ _ => true
   | _ => false
